@@ -132,4 +132,53 @@ theorem decorCall_last {cfg : Cfg} {s : St} {k : Nat} {ttl : Option Nat} {tags :
   | soft x soft r => exact fin _ (softCall_shape cfg s k x ttl soft tags r hran)
   | hit kc x ch ua r hne => exact fin _ (hitCall_shape cfg s k kc x ttl tags ch ua r hran)
 
+/-! ### `delete_many` over prefix-routed backends -/
+
+theorem mem_ownersOf (owner : Nat → Nat) (ks : List Nat) (k : Nat) (h : k ∈ ks) : owner k ∈ ownersOf owner ks := by
+  induction ks with
+  | nil => cases h
+  | cons x r ih =>
+    simp only [ownersOf, List.mem_cons, List.mem_filter]
+    by_cases hx : owner k = owner x
+    · exact Or.inl hx
+    · right
+      rcases List.mem_cons.mp h with h' | h'
+      · subst h'; exact absurd rfl hx
+      · exact ⟨ih h', by simpa using hx⟩
+
+theorem mem_groupsBy (owner : Nat → Nat) (ks : List Nat) (k : Nat) :
+    (∃ g ∈ groupsBy owner ks, k ∈ g) ↔ k ∈ ks := by
+  constructor
+  · rintro ⟨g, hg, hk⟩
+    simp only [groupsBy, List.mem_map] at hg
+    obtain ⟨b, _, rfl⟩ := hg
+    exact (List.mem_filter.mp hk).1
+  · intro hk
+    refine ⟨ks.filter (owner · = owner k), ?_, ?_⟩
+    · simp only [groupsBy, List.mem_map]
+      exact ⟨owner k, mem_ownersOf owner ks k hk, rfl⟩
+    · exact List.mem_filter.mpr ⟨hk, by simp⟩
+
+theorem foldl_groups_kv_since (cfg : Cfg) (gs : List (List Nat)) (s : St) (k : Nat) :
+    ((gs.foldl (fun s g => g.foldl (delKey cfg) s) s).kv k = if (∃ g ∈ gs, k ∈ g) then none else s.kv k) ∧
+    ((gs.foldl (fun s g => g.foldl (delKey cfg) s) s).since k = if (∃ g ∈ gs, k ∈ g) then [] else s.since k) := by
+  induction gs generalizing s with
+  | nil => simp
+  | cons g r ih =>
+    simp only [List.foldl_cons]
+    obtain ⟨h1, h2⟩ := ih (g.foldl (delKey cfg) s)
+    rw [h1, h2, foldl_delKey_kv, foldl_delKey_since]
+    by_cases hr : ∃ g' ∈ r, k ∈ g'
+    · have : ∃ g' ∈ g :: r, k ∈ g' := by obtain ⟨g', hg', hk⟩ := hr; exact ⟨g', List.mem_cons_of_mem _ hg', hk⟩
+      simp [hr]
+    · by_cases hg : k ∈ g
+      · have : ∃ g' ∈ g :: r, k ∈ g' := ⟨g, List.mem_cons_self .., hg⟩
+        simp [hr, hg]
+      · have : ¬ ∃ g' ∈ g :: r, k ∈ g' := by
+          rintro ⟨g', hg', hk⟩
+          rcases List.mem_cons.mp hg' with e | e
+          · subst e; exact hg hk
+          · exact hr ⟨g', e, hk⟩
+        simp [hr, hg]
+
 end CashewsVerif.Tags
